@@ -44,11 +44,13 @@ const ShapesSpec = `{"openapi":"3.1.0","info":{"title":"t","version":"1","x-b":1
     "default":{"description":"d","content":{"application/json":{"schema":{"$ref":"#/components/schemas/Err"}}}}}}},
  "/req":{"post":{"operationId":"req","parameters":[{"name":"f","in":"query","content":{"application/json":{"schema":{"$ref":"#/components/schemas/Pet"}}}},{"name":"g","in":"header","content":{"application/json":{"schema":{"type":"array","items":{"type":"integer"}}}}}],
    "requestBody":{"content":{"application/json":{"schema":{"$ref":"#/components/schemas/Pet"}},"image/*":{"schema":{"type":"string","format":"binary"}},"application/octet-stream":{"schema":{"type":"string","format":"binary"}},"text/*":{"schema":{"type":"string","format":"binary"}}}},
-   "responses":{"200":{"description":"ok","content":{"application/json":{"schema":{"$ref":"#/components/schemas/Merged"}}}}}}}},
+   "responses":{"200":{"description":"ok","content":{"application/json":{"schema":{"$ref":"#/components/schemas/Merged"}}}}}}},
+ "/dflt":{"get":{"operationId":"dflt","responses":{"200":{"description":"ok"},"default":{"$ref":"#/components/responses/Shared"}}}},
+ "/zcodes":{"get":{"operationId":"zcodes","responses":{"200":{"description":"ok"},"404":{"$ref":"#/components/responses/Shared"},"500":{"$ref":"#/components/responses/Shared"},"409":{"$ref":"#/components/responses/Shared"}}}}},
 "webhooks":{"zeta":{"post":{"operationId":"hookZ","requestBody":{"content":{"application/json":{"schema":{"$ref":"#/components/schemas/Pet"}}}},"responses":{"200":{"description":"ok"}}}},
  "alpha":{"post":{"operationId":"hookA","requestBody":{"content":{"application/json":{"schema":{"$ref":"#/components/schemas/Err"}}}},"responses":{"200":{"description":"ok"}}}},
  "mid":{"post":{"operationId":"hookM","requestBody":{"content":{"application/json":{"schema":{"type":"string"}}}},"responses":{"200":{"description":"ok"}}}}},
-"components":{"securitySchemes":{"O":{"type":"oauth2","flows":{"clientCredentials":{"tokenUrl":"https://x/t","scopes":{"read":"r","write":"w","admin":"a","audit":"u","x1":"1","x2":"2"}},"password":{"tokenUrl":"https://x/p","scopes":{"read":"r","x2":"2"}}}},"K":{"type":"apiKey","in":"header","name":"X-K"}},
+"components":{"responses":{"Shared":{"description":"s","content":{"application/json":{"schema":{"$ref":"#/components/schemas/Err"}}}}},"securitySchemes":{"O":{"type":"oauth2","flows":{"clientCredentials":{"tokenUrl":"https://x/t","scopes":{"read":"r","write":"w","admin":"a","audit":"u","x1":"1","x2":"2"}},"password":{"tokenUrl":"https://x/p","scopes":{"read":"r","x2":"2"}}}},"K":{"type":"apiKey","in":"header","name":"X-K"}},
  "schemas":{
   "Err":{"type":"object","properties":{"m":{"type":"string"}},"x-ogen-name":"Failure","x-zzz":1,"x-aaa":2},
   "Pet":{"oneOf":[{"$ref":"#/components/schemas/Cat"},{"$ref":"#/components/schemas/Dog"},{"$ref":"#/components/schemas/Eel"}],"discriminator":{"propertyName":"kind","mapping":{"zcat":"#/components/schemas/Cat","adog":"#/components/schemas/Dog","meel":"#/components/schemas/Eel","cat2":"#/components/schemas/Cat"}}},
